@@ -47,9 +47,9 @@ func c128Rep(r *rand.Rand, class int) rune {
 }
 
 func (c05) Gen(tier string, seed int64) []fw.Unit {
-	depth := int64(5)
+	depth := int64(6)
 	if tier == "thorough" {
-		depth = 7
+		depth = 8
 	}
 	var us []fw.Unit
 	for a := 0; a < c128Classes; a++ {
@@ -61,9 +61,9 @@ func (c05) Gen(tier string, seed int64) []fw.Unit {
 	us = append(us, fw.U("c128.digitruns", nil, "digit-runs", 0))
 	us = append(us, fw.U("c128.digitruns", nil, "digit-runs", 1))
 	r := rngFor(seed, "C05")
-	n := 40
+	n := 120
 	if tier == "thorough" {
-		n = 400
+		n = 1200
 	}
 	for i := 0; i < n; i++ {
 		us = append(us, fw.U("c128.random", nil, "random", r.Int63(), 500))
